@@ -582,7 +582,7 @@ func fieldReads(c *core.Ctx, tname, fname string, exclude func(fn *ssa.Function)
 			switch x := in.(type) {
 			case *ssa.FieldAddr:
 				r := core.FieldAddrRef(x)
-				if r.Name == fname && r.Struct != nil && r.Struct.Obj().Name() == tname {
+				if r.Name == fname && r.Struct != nil && core.StructName(r.Struct) == tname {
 					// a read = the address is loaded (not only stored to)
 					for _, rr := range *x.Referrers() {
 						if u, ok := rr.(*ssa.UnOp); ok && u.Op == token.MUL {
@@ -595,7 +595,7 @@ func fieldReads(c *core.Ctx, tname, fname string, exclude func(fn *ssa.Function)
 				}
 			case *ssa.Field:
 				r := core.FieldValRef(x)
-				if r.Name == fname && r.Struct != nil && r.Struct.Obj().Name() == tname {
+				if r.Name == fname && r.Struct != nil && core.StructName(r.Struct) == tname {
 					out = append(out, x)
 				}
 			}
@@ -745,7 +745,7 @@ func r17a(c *core.Ctx) {
 			if st, ok := in.(*ssa.Store); ok {
 				if fa, ok := st.Addr.(*ssa.FieldAddr); ok {
 					r := core.FieldAddrRef(fa)
-					if r.Struct != nil && r.Struct.Obj().Name() == "Opt" {
+					if r.Struct != nil && core.StructName(r.Struct) == "Opt" {
 						got[r.Name] = core.Expr(st.Val)
 					}
 				}
